@@ -17,6 +17,8 @@ inductive VOp where
   | pop | remove (i : Nat) | swapRemove (i : Nat) | clear
   /-- `drain(a..b)` dropped without taking any item -/
   | drain (a b : Nat)
+  /-- removals through the typed view: the value goes to the caller -/
+  | tpop | tremove (i : Nat) | tswapRemove (i : Nat)
   deriving Repr, DecidableEq
 
 /-- the script step of an abstract operation on vector `v` whose elements have type `ty` -/
@@ -30,6 +32,9 @@ def VOp.toOp (v ty : Nat) : VOp → Op
   | .swapRemove i => .swapRemove v i .drop
   | .clear => .clear v
   | .drain a b => .drain v (.incl a) (.excl b) false [] .drop
+  | .tpop => .tpop v
+  | .tremove i => .tremove v i
+  | .tswapRemove i => .tswapRemove v i
 
 /-- `Vec<Id>` plus the counter identities are drawn from -/
 structure Spec where
@@ -57,6 +62,12 @@ inductive Spec.Step : Spec → VOp → Spec → Prop where
   | drain (s : Spec) (a b : Nat) (h : a ≤ b ∧ b ≤ s.items.length) :
       Step s (.drain a b) ⟨s.items.take a ++ s.items.drop b, s.next⟩
   | drainOut (s : Spec) (a b : Nat) (h : ¬ (a ≤ b ∧ b ≤ s.items.length)) : Step s (.drain a b) s
+  | tpop (s : Spec) : Step s .tpop ⟨s.items.take (s.items.length - 1), s.next⟩
+  | tremove (s : Spec) (i : Nat) (h : i < s.items.length) : Step s (.tremove i) ⟨s.items.eraseIdx i, s.next⟩
+  | tremoveOut (s : Spec) (i : Nat) (h : s.items.length ≤ i) : Step s (.tremove i) s
+  | tswapRemove (s : Spec) (i : Nat) (h : i < s.items.length) :
+      Step s (.tswapRemove i) ⟨(s.items.set i (s.items.getD (s.items.length - 1) 0)).take (s.items.length - 1), s.next⟩
+  | tswapRemoveOut (s : Spec) (i : Nat) (h : s.items.length ≤ i) : Step s (.tswapRemove i) s
 
 /-- the concrete world shows the abstract vector at `v` -/
 structure Rel (v ty : Nat) (w : World) (s : Spec) : Prop where
@@ -451,6 +462,130 @@ theorem step_drain (cfg : Cfg) (v ty a b : Nat) (w : World) (s : Spec) (h : Rel 
     rw [hex] at hinv' ⊢
     exact Rel.mk' hinv' rfl d hv hl hty habs hn
 
+/-- typed `remove(i)` with `i < len`: the element leaves into the caller's hands, nothing is destroyed -/
+theorem tremove_exec (cfg : Cfg) (w : World) (v i id : Nat) (d : VecSt)
+    (hv : w.vecs[v]? = some d) (hl : d.live = true) (hwf : d.WF) (hi : i < d.len)
+    (hc : d.cells.get i = .val id) :
+    step cfg (.tremove v i) w =
+      ({ w with vecs := w.vecs.set v (d.removeAt i), held := id :: w.held }, .ok [cfg.tok id]) := by
+  have hlt : v < w.vecs.length := (List.getElem?_eq_some_iff.mp hv).1
+  have hd : w.vecs[v] = d := (List.getElem?_eq_some_iff.mp hv).2
+  have h1 := hwf.len_le; have h2 := hwf.cells_le
+  have hb1 : i < d.cap := by omega
+  have hb2 : i + 1 + (d.len - 1 - i) ≤ d.cap := by omega
+  have hb3 : i + (d.len - 1 - i) ≤ d.cap := by omega
+  simp [step, getVec, hl, hi, hlt, hd, setLen, sinkHandle, hSlot, readElem, VecSt.readElem_ok, hb1, hc,
+    hConsume, moveElems, VecSt.moveElems_ok, hb2, hb3, World.upd, VecSt.removeAt, hold]
+
+theorem tswap_remove_exec (cfg : Cfg) (w : World) (v i id : Nat) (d : VecSt)
+    (hv : w.vecs[v]? = some d) (hl : d.live = true) (hwf : d.WF) (hi : i < d.len)
+    (hc : d.cells.get i = .val id) :
+    step cfg (.tswapRemove v i) w =
+      ({ w with vecs := w.vecs.set v (d.swapRemoveAt i), held := id :: w.held }, .ok [cfg.tok id]) := by
+  have hlt : v < w.vecs.length := (List.getElem?_eq_some_iff.mp hv).1
+  have hd : w.vecs[v] = d := (List.getElem?_eq_some_iff.mp hv).2
+  have h1 := hwf.len_le; have h2 := hwf.cells_le
+  have hb1 : i < d.cap := by omega
+  have hb2 : d.len - 1 < d.cap := by omega
+  have e1 : d.cells.ensure (i + 1) = d.cells := ensure_of_le _ _ (by omega)
+  by_cases hlast : i = d.len - 1
+  · have hi' : d.len - 1 < d.len := by omega
+    have hc' : d.cells.get (d.len - 1) = .val id := by rw [← hlast]; exact hc
+    simp [step, getVec, hl, hi', hlt, hd, setLen, sinkHandle, hSlot, readElem, VecSt.readElem_ok, hb2, hc',
+      hConsume, World.upd, VecSt.swapRemoveAt, hlast, hold]
+  · simp [step, getVec, hl, hi, hlt, hd, setLen, sinkHandle, hSlot, readElem, VecSt.readElem_ok, hb1, hc,
+      hConsume, World.upd, VecSt.swapRemoveAt, hlast, World.writeCell, VecSt.writeCell_ok, hb2, e1, hold]
+
+theorem tpop_exec (cfg : Cfg) (w : World) (v id : Nat) (d : VecSt)
+    (hv : w.vecs[v]? = some d) (hl : d.live = true) (hwf : d.WF) (hne : d.len ≠ 0)
+    (hc : d.cells.get (d.len - 1) = .val id) :
+    step cfg (.tpop v) w =
+      ({ w with vecs := w.vecs.set v { d with len := d.len - 1 }, held := id :: w.held }, .ok [cfg.tok id]) := by
+  have hlt : v < w.vecs.length := (List.getElem?_eq_some_iff.mp hv).1
+  have hd : w.vecs[v] = d := (List.getElem?_eq_some_iff.mp hv).2
+  have h1 := hwf.len_le; have h2 := hwf.cells_le
+  have hb1 : d.len - 1 < d.cap := by omega
+  simp [step, getVec, hl, hne, hlt, hd, setLen, sinkHandle, hSlot, readElem, VecSt.readElem_ok, hb1, hc,
+    hConsume, World.upd, hold]
+
+theorem step_tremove (cfg : Cfg) (v ty i : Nat) (w : World) (s : Spec) (h : Rel v ty w s) :
+    ∃ s', Spec.Step s (.tremove i) s' ∧ Rel v ty (step cfg ((VOp.tremove i).toOp v ty) w).1 s' ∧
+      (step cfg ((VOp.tremove i).toOp v ty) w).2.notUb := by
+  obtain ⟨hinv, hf, ⟨d, hv, hl, hty, habs⟩, hn⟩ := h
+  have hcore : Hist.Core ((VOp.tremove i).toOp v ty) := trivial
+  have hvalid : Hist.Valid w.vecs ((VOp.tremove i).toOp v ty) := ⟨d, hv, hl⟩
+  obtain ⟨hinv', hnub⟩ := Hist.step_inv cfg _ w hinv hcore hvalid
+  have hg := hinv.good v d hv
+  have hlen := abs_len hg.wf habs
+  by_cases hi : i < d.len
+  · have hc := cell_of_abs hg habs i hi
+    have hex := tremove_exec cfg w v i _ d hv hl hg.wf hi hc
+    refine ⟨⟨s.items.eraseIdx i, s.next⟩, Spec.Step.tremove s i (by omega), ?_, hnub⟩
+    simp only [VOp.toOp] at hinv' ⊢
+    rw [hex] at hinv' ⊢
+    refine Rel.mk' hinv' hf (d.removeAt i) (set_get w v d _ hv)
+      (by simp [VecSt.removeAt, hl]) (by simp [VecSt.removeAt, hty]) ?_ hn
+    rw [VecSt.removeAt_abs d i hg.wf hi, habs, map_eraseIdx']
+  · refine ⟨s, Spec.Step.tremoveOut s i (by omega), ?_, hnub⟩
+    have hex : step cfg ((VOp.tremove i).toOp v ty) w = ({ w with fault := none }, .panic "Index out of range!") := by
+      simp only [VOp.toOp, step, WM.bind_apply, getVec_ok w v d hv hl, hi, if_false, WM.panic_apply]
+    rw [hex] at hinv' ⊢
+    exact Rel.mk' hinv' rfl d hv hl hty habs hn
+
+theorem step_tswapRemove (cfg : Cfg) (v ty i : Nat) (w : World) (s : Spec) (h : Rel v ty w s) :
+    ∃ s', Spec.Step s (.tswapRemove i) s' ∧ Rel v ty (step cfg ((VOp.tswapRemove i).toOp v ty) w).1 s' ∧
+      (step cfg ((VOp.tswapRemove i).toOp v ty) w).2.notUb := by
+  obtain ⟨hinv, hf, ⟨d, hv, hl, hty, habs⟩, hn⟩ := h
+  have hcore : Hist.Core ((VOp.tswapRemove i).toOp v ty) := trivial
+  have hvalid : Hist.Valid w.vecs ((VOp.tswapRemove i).toOp v ty) := ⟨d, hv, hl⟩
+  obtain ⟨hinv', hnub⟩ := Hist.step_inv cfg _ w hinv hcore hvalid
+  have hg := hinv.good v d hv
+  have hlen := abs_len hg.wf habs
+  by_cases hi : i < d.len
+  · have hc := cell_of_abs hg habs i hi
+    have hex := tswap_remove_exec cfg w v i _ d hv hl hg.wf hi hc
+    refine ⟨_, Spec.Step.tswapRemove s i (by omega), ?_, hnub⟩
+    simp only [VOp.toOp] at hinv' ⊢
+    rw [hex] at hinv' ⊢
+    refine Rel.mk' hinv' hf (d.swapRemoveAt i) (set_get w v d _ hv)
+      (by simp [VecSt.swapRemoveAt, hl]) (by simp [VecSt.swapRemoveAt, hty]) ?_ hn
+    rw [VecSt.swapRemoveAt_abs d i hg.wf hi, habs, cell_of_abs hg habs (d.len - 1) (by omega), hlen]
+    simp [List.map_take, List.map_set]
+  · refine ⟨s, Spec.Step.tswapRemoveOut s i (by omega), ?_, hnub⟩
+    have hex : step cfg ((VOp.tswapRemove i).toOp v ty) w = ({ w with fault := none }, .panic "Index out of range!") := by
+      simp only [VOp.toOp, step, WM.bind_apply, getVec_ok w v d hv hl, hi, if_false, WM.panic_apply]
+    rw [hex] at hinv' ⊢
+    exact Rel.mk' hinv' rfl d hv hl hty habs hn
+
+theorem step_tpop (cfg : Cfg) (v ty : Nat) (w : World) (s : Spec) (h : Rel v ty w s) :
+    ∃ s', Spec.Step s .tpop s' ∧ Rel v ty (step cfg (VOp.tpop.toOp v ty) w).1 s' ∧
+      (step cfg (VOp.tpop.toOp v ty) w).2.notUb := by
+  obtain ⟨hinv, hf, ⟨d, hv, hl, hty, habs⟩, hn⟩ := h
+  have hcore : Hist.Core (VOp.tpop.toOp v ty) := trivial
+  have hvalid : Hist.Valid w.vecs (VOp.tpop.toOp v ty) := ⟨d, hv, hl⟩
+  obtain ⟨hinv', hnub⟩ := Hist.step_inv cfg _ w hinv hcore hvalid
+  have hg := hinv.good v d hv
+  have hlen := abs_len hg.wf habs
+  refine ⟨_, Spec.Step.tpop s, ?_, hnub⟩
+  by_cases h0 : d.len = 0
+  · have hex : step cfg (VOp.tpop.toOp v ty) w = (w, .ok ["N"]) := by
+      simp only [VOp.toOp, step, WM.bind_apply, getVec_ok w v d hv hl, h0, if_true, WM.pure_apply]
+    rw [hex]
+    have : s.items = [] := by cases hs : s.items with
+      | nil => rfl
+      | cons x xs => rw [hs] at hlen; simp at hlen; omega
+    exact Rel.mk' hinv hf d hv hl hty (by rw [habs, this]; rfl) hn
+  · have hc := cell_of_abs hg habs (d.len - 1) (by omega)
+    have hex := tpop_exec cfg w v _ d hv hl hg.wf h0 hc
+    simp only [VOp.toOp] at hinv' ⊢
+    rw [hex] at hinv' ⊢
+    refine Rel.mk' hinv' hf { d with len := d.len - 1 } (set_get w v d _ hv) hl hty ?_ hn
+    have h1 := hg.wf.len_le
+    have : ({ d with len := d.len - 1 } : VecSt).abs = d.abs.take (d.len - 1) := by
+      simp only [VecSt.abs, List.take_take]
+      congr 1; omega
+    rw [this, habs, hlen, List.map_take]
+
 /-- **one step refines the abstract vector** -/
 theorem step_refines (cfg : Cfg) (v ty : Nat) (w : World) (s : Spec) (h : Rel v ty w s) (op : VOp) :
     ∃ s', Spec.Step s op s' ∧ Rel v ty (step cfg (op.toOp v ty) w).1 s' ∧ (step cfg (op.toOp v ty) w).2.notUb := by
@@ -464,6 +599,9 @@ theorem step_refines (cfg : Cfg) (v ty : Nat) (w : World) (s : Spec) (h : Rel v 
   | swapRemove i => exact step_swapRemove cfg v ty i w s h
   | clear => exact step_clear cfg v ty w s h
   | drain a b => exact step_drain cfg v ty a b w s h
+  | tpop => exact step_tpop cfg v ty w s h
+  | tremove i => exact step_tremove cfg v ty i w s h
+  | tswapRemove i => exact step_tswapRemove cfg v ty i w s h
 
 /-- run a history of element-wise operations -/
 def runOps (cfg : Cfg) (v ty : Nat) : World → List VOp → World
@@ -477,7 +615,7 @@ inductive Spec.Steps : Spec → List VOp → Spec → Prop where
 
 /-- **every history refines the abstract vector**: from any world in which vector `v` shows the abstract items (and
 which satisfies the invariant, e.g. any reachable world), any sequence of element-wise operations - erased and typed
-`push`/`insert`, `pop`/`remove`/`swap_remove` with the handle dropped, `clear`, `drain(a..b)` dropped unconsumed, with any indices - leads to a world
+`push`/`insert`, `pop`/`remove`/`swap_remove` with the handle dropped or (typed) with the value taken, `clear`, `drain(a..b)` dropped unconsumed, with any indices - leads to a world
 that shows what the abstract `Vec` shows after some run of the same sequence, and no step faults on memory. -/
 theorem history_refines (cfg : Cfg) (v ty : Nat) (ops : List VOp) :
     ∀ (w : World) (s : Spec), Rel v ty w s → ∃ s', Spec.Steps s ops s' ∧ Rel v ty (runOps cfg v ty w ops) s' := by
